@@ -12,7 +12,7 @@ Out(p) ==
     [name |-> p.name,
      inv |-> [i \in DOMAIN r.inv |->
                 [r.inv[i] EXCEPT !.deps = SetToSeq(r.inv[i].deps)]],
-     outs |-> VObj(r.outs)]
+     outs |-> VObj(r.outs), weak |-> r.wk]
 
 ASSUME ndJsonSerialize("sem_out.ndjson", [i \in DOMAIN Progs |-> Out(Progs[i])])
 ===========================================================================
